@@ -384,6 +384,7 @@ type MonC20 struct {
 	stopped        bool
 	faults         int
 	cycles         [][2]int // fault step, start step (-1 = never restarted)
+	stopDone       bool     // Stop has returned and the service has not been started again
 	pendingAtFault bool
 }
 
@@ -494,6 +495,20 @@ func (m *MonC20) OnStepEnd(w *World, step int) {
 }
 
 func (m *MonC20) OnLog(w *World, e *LogEntry) {
+	switch e.Kind {
+	case "stop_done":
+		m.stopDone = true
+	case "mq_connect":
+		m.stopDone = false
+	case "frame":
+		// a client that was not reading finds, after Stop has returned, a frame on
+		// its socket: the connection was not closed by Stop but left to drain
+		if m.stopDone && w.StalledAtStop[e.Conn] {
+			m.class("stalled_client_at_fault")
+			m.viols = append(m.viols, Violation{Property: "C20", Class: "frame_after_stop", Step: e.Step, T: e.T, Conn: e.Conn,
+				Message: fmt.Sprintf("c%d received %s after Stop had returned: its socket was still open and being written to", e.Conn, trunc(string(e.Payload), 120))})
+		}
+	}
 	if (e.Kind == "mq_close" || e.Kind == "mq_lost") && m.faultStep < 0 {
 		// the boundary log shows the fault before OnStepEnd does
 	}
@@ -612,7 +627,7 @@ func init() {
 		ID: "C20",
 		Profiles: []*Profile{
 			func() *Profile {
-				p := dataProfile("c20-base", map[string]int{"close": 1, "call": 14, "auth": 3, "httpget": 0, "httppost": 0, "sysreset": 2, "custom": 1, "silent": 0, "qmutate": 0, "qevent": 1})
+				p := dataProfile("c20-base", map[string]int{"close": 1, "stallburst": 4, "call": 14, "auth": 3, "httpget": 0, "httppost": 0, "sysreset": 2, "custom": 1, "silent": 0, "qmutate": 0, "qevent": 1})
 				p.MinOps, p.MaxOps, p.MaxConns, p.Prologue = 3, 12, 3, 50
 				return p
 			}(),
